@@ -67,8 +67,10 @@ def to_wikitext(
             # Certain constructs needs to be protected so that they don't get
             # parsed when we convert back and forth between wikitext and parsed
             # representations.
-            node = re.sub(r"(?si)\[\[", "[<noinclude/>[", node)
-            node = re.sub(r"(?si)\]\]", "]<noinclude/>]", node)
+            # every pair of adjacent brackets, overlapping ones as well
+            # ("[[[" must not keep a "[[" after the first replacement)
+            node = re.sub(r"\[(?=\[)", "[<noinclude/>", node)
+            node = re.sub(r"\](?=\])", "]<noinclude/>", node)
             return node
         if isinstance(node, (list, tuple)):
             return "".join(map(recurse, node))
